@@ -8,6 +8,9 @@ use std::collections::BTreeMap;
 use verifsim::{check, exec, gen, prng};
 
 fn focus_of(s: &str) -> gen::Focus {
+    if s.starts_with("fixtures") {
+        return check::focus_of(s);
+    }
     match s {
         "compile" => gen::Focus::Compile,
         "defaults" => gen::Focus::Defaults,
